@@ -345,21 +345,64 @@ def check_read_int(run, rule):
     # 24..27: locate loop, evaluate count and shifts
     loops = [n for n in ir.walk(f["body"]) if n.get("k") in ("For", "While", "Do")
              and any(x.get("k") == "Bin" and x.get("op") == "<<" for x in ir.walk(n.get("body") or {}))]
-    for ai, want in ((24, 1), (25, 2), (26, 4), (27, 8)):
-        key = "read_int:ai=%d" % ai
-        if len(loops) != 1:
-            run.ob(rule, key, None, f, f["line"], "expected one loop assembling the argument with a shift (found %d)" % len(loops))
-            continue
-        lp = loops[0]
+    def reach(stmts_, env_, lp_):
+        """run_straightline up to lp_; a branch that cannot be evaluated because it tests the state of the window (how many
+        bytes are buffered) is assumed to go the way that leads to lp_: every such alternative is a loop of its own here"""
+        for s_ in stmts_:
+            if s_ is lp_:
+                return "reached"
+            inside = any(x is lp_ for x in ir.walk(s_))
+            if s_.get("k") == "If" and inside:
+                try:
+                    c_ = minieval.ev(unwrap(s_["cond"]), env_, enums)
+                except minieval.Unknown:
+                    txt = show(s_["cond"])
+                    if "m_p" not in txt and "m_end" not in txt:
+                        return "unknown"
+                    c_ = any(x is lp_ for x in ir.walk(s_["then"]))
+                br_ = s_["then"] if c_ else s_.get("else")
+                if br_ is None or not any(x is lp_ for x in ir.walk(br_)):
+                    return "not reached"
+                return reach(ir.stmts(br_), env_, lp_)
+            if s_.get("k") == "Block" and inside:
+                return reach(s_.get("s", []), env_, lp_)
+            if inside:
+                return "unknown"
+            r_ = minieval.run_straightline([s_], env_, enums)
+            if r_[0] != "end":
+                return "not reached" if r_[0] in ("return", "throw") else "unknown"
+        return "not reached"
+
+    def trailing_moves(lp_, env_):
+        """bytes by which the statements following the loop in its block advance the cursor (`m_p += bytes`)"""
+        for b in ir.walk(f["body"]):
+            if b.get("k") == "Block" and any(x is lp_ for x in b.get("s", [])):
+                sts_ = b["s"]
+                i_ = [j for j, x in enumerate(sts_) if x is lp_][0]
+                tot = 0
+                for s_ in sts_[i_ + 1:]:
+                    for n_ in ir.walk(s_):
+                        if n_.get("k") == "Bin" and n_.get("op") == "+=" and path(n_.get("lhs")) == ("this", "m_p"):
+                            tot += minieval.ev(unwrap(n_["rhs"]), env_, enums)
+                        elif decoder.is_mp_move(n_):
+                            tot += 1
+                return tot
+        return 0
+
+    if not loops:
+        for ai in (24, 25, 26, 27):
+            run.ob(rule, "read_int:ai=%d" % ai, None, f, f["line"], "no loop assembling the argument with a shift was found")
+    for li, (lp, ai, want) in enumerate((lp_, ai_, want_) for lp_ in loops for ai_, want_ in ((24, 1), (25, 2), (26, 4), (27, 8))):
+        key = "read_int:ai=%d" % ai + ("" if lp is loops[0] else "#path%d" % (1 + [j for j, x in enumerate(loops) if x is lp][0]))
         env = {pname: ai}
-        # is the loop reached for this ai?  (run_straightline leaves the values of the locals declared on the way in env)
-        r = minieval.run_straightline(st, env, enums, stop_at=lp)
-        if r[0] != "reached" and not any(x is lp for x in ir.walk(r[1] or {})):
-            if r[0] == "unknown":
-                run.ob(rule, key, None, f, lp["l"], "the argument is assembled on more than one path (a branch on run-time state precedes the loop); "
-                       "the width rule only understands the single byte-by-byte loop")
+        # is the loop reached for this ai?
+        r = reach(st, env, lp)
+        if r != "reached":
+            if r == "unknown":
+                run.ob(rule, key, None, f, lp["l"], "whether additional information %d reaches this byte-assembly loop depends on a condition "
+                       "the rule cannot evaluate" % ai)
             else:
-                run.ob(rule, key, False, f, lp["l"], "additional information %d does not reach the byte-assembly loop (%s)" % (ai, r[0]))
+                run.ob(rule, key, False, f, lp["l"], "additional information %d does not reach the byte-assembly loop (%s)" % (ai, r))
             continue
         try:
             if lp["k"] == "For" and lp.get("init") is not None:
@@ -469,6 +512,9 @@ def check_read_int(run, rule):
                     if not symstep(u):
                         minieval.step(u, env, enums)
                     moves[0] += len([n for n in ir.walk(s_) if decoder.is_mp_move(n)])
+                    for n_ in ir.walk(s_):
+                        if n_.get("k") == "Bin" and n_.get("op") == "+=" and path(n_.get("lhs")) == ("this", "m_p"):
+                            raise minieval.Unknown("cursor moved by a computed amount inside the loop")
                 if lp["k"] == "For" and lp.get("inc") is not None:
                     minieval.step(unwrap(lp["inc"]), env, enums)
                 rounds += 1
@@ -477,6 +523,11 @@ def check_read_int(run, rule):
                     ir.path_str(path(n["e"])) in sym]
             got = sym.get(ir.path_str(path(rets[-1]["e"]))) if rets else None
             wantmap = {k_: 8 * (want - 1 - k_) for k_ in range(want)}
+            # a loop that indexes from an unmoved cursor (m_p[i]) is followed by one move over all the bytes
+            in_loop_moves = moves[0]
+            moves[0] += trailing_moves(lp, env)
+            if in_loop_moves != 0 and moves[0] != in_loop_moves:
+                raise minieval.Unknown("cursor moved both inside and after the loop")
             ok = got == wantmap and moves[0] == want
             shifts = [got.get(k_) for k_ in sorted(got)] if got else []
             run.ob(rule, key, ok, f, lp["l"],
@@ -610,7 +661,15 @@ def check_values(run, rule, flag_contract=True):
         e = unwrap_all_casts(rets[0]["e"])
         if isinstance(e, dict) and e.get("k") == "Bin" and e.get("op") == "-":
             # `-1 - n` is evaluated in uint64_t (n is unsigned): -1 appears as 2^64-1 after the usual conversions
-            ok = str(const_value(e["lhs"])) in ("-1", str((1 << 64) - 1)) and callee_qn(unwrap_all_casts(e["rhs"])) == "CDNS::CdnsDecoder::read_int"
+            # (numeric_limits<uint64_t>::max() is the same constant); n is the read_int call or a local that holds its result
+            lhs_c = const_value(e["lhs"])
+            if lhs_c is None:
+                lhs_c = const_value(unwrap_all_casts(e["lhs"]))
+            n_ = unwrap_all_casts(e["rhs"])
+            if path(n_) is not None and len(path(n_)) == 1:
+                d_ = ir.Env(rn["body"]).definition(path(n_))
+                n_ = unwrap_all_casts(d_) if d_ is not None else n_
+            ok = str(lhs_c) in ("-1", str((1 << 64) - 1)) and callee_qn(n_) == "CDNS::CdnsDecoder::read_int"
     run.ob(rule, "read_negative:-1-n", ok, rn, rn["line"], "negative integer decoded as -1 - n" if ok else "read_negative does not return -1 - read_int(ai)")
     rb = dfn(facts, "read_bool", rule)
     rc = [c for c in ir.calls_in(rb["body"]) if callee_qn(c) == "CDNS::CdnsDecoder::read_cbor_type"]
